@@ -8,8 +8,8 @@ import (
 	"github.com/nsqio/nsq/internal/verifrt"
 )
 
-// Ledger: k operations (publish, deferred publish, delivery, FIN, REQ, timeout scan, deferred scan,
-// empty) from any valid channel state. After every operation:
+// Ledger: k operations (publish, deferred publish, delivery, FIN, REQ, TOUCH, timeout scan, deferred
+// scan, empty) from any valid channel state. After every operation:
 //
 //	received == depth + in flight + deferred + finished + discarded-by-empty
 //
@@ -45,7 +45,7 @@ func verifC13Ledger() {
 	steps := verifrt.Bound("steps", 1, 2)
 	for s := 0; s < steps; s++ {
 		present := uint64(c.Depth()) + uint64(len(c.inFlightMessages)) + uint64(len(c.deferredMessages))
-		switch verifrt.Choice("op", 8) {
+		switch verifrt.Choice("op", 9) {
 		case 0: // publish (the backend may fail when memory is full)
 			st.be.failPut = verifrt.Bool("backend-fails")
 			m := fresh("new")
@@ -83,6 +83,10 @@ func verifC13Ledger() {
 			c.processInFlightQueue(verifrt.Int64("scan-t"))
 		case 6:
 			c.processDeferredQueue(verifrt.Int64("dscan-t"))
+		case 8: // TOUCH for any id (also one whose deadline already sits at the max-msg-timeout cap)
+			id := MessageID{}
+			copy(id[:], verifrt.BytesN("touch-id", 16))
+			p.TOUCH(cl, [][]byte{[]byte("TOUCH"), id[:]})
 		case 7:
 			c.Empty()
 			emptied += present
@@ -114,7 +118,7 @@ func verifC13Topic() {
 	o := verifOpts()
 	o.MemQueueSize = 1
 	n := verifShellNSQD(o)
-	verifrt.Stub("(*github.com/nsqio/nsq/nsqd.NSQD).Notify", verifNotifyNop)
+	verifrt.StubNative("(*github.com/nsqio/nsq/nsqd.NSQD).Notify", verifNotifyNop)
 	t := NewTopic("t", n, func(*Topic) {})
 	if !verifrt.Symbolic() {
 		t.backend.Close()
@@ -159,7 +163,7 @@ func verifC13Stats() {
 	o := verifOpts()
 	n := verifShellNSQD(o)
 	n.tcpServer = &tcpServer{nsqd: n}
-	verifrt.Stub("(*github.com/nsqio/nsq/nsqd.NSQD).Notify", verifNotifyNop)
+	verifrt.StubNative("(*github.com/nsqio/nsq/nsqd.NSQD).Notify", verifNotifyNop)
 	mk := func(name string, chans ...string) *Topic {
 		t := NewTopic(name, n, func(*Topic) {})
 		n.topicMap[name] = t
@@ -229,3 +233,7 @@ func verifC13Stats() {
 	verifrt.Reach("channel-filter-across-topics", filterTopic == "" && filterChan == "ch")
 	_ = ta
 }
+
+// Counters under an answer racing the timeout scan (shared with C02): no count negative, the
+// timeout counter and the consumer's in-flight count match what actually happened.
+func VerifC13_AnswerVsScanCounters() { verifAnswerVsScan() }
